@@ -211,16 +211,18 @@ theorem reach_adopted_v {s : Store} (hw : WF s) (v : Nat) (cs : List Nat)
       rw [← this]; exact hp
     exact Reach.step (ih ((Reach.of_parent hp').trans hx)) hp'
 
-/-- accepted `v.children = cs`, on forests: `Forest.setChildren`, up to the order of the trees -/
-theorem forest_adopted {s : Store} (hw : WF s) (v : Nat) (hv : v < s.n) : ∀ (cs : List Nat), cs.Nodup →
+/-- accepted `v.children = cs`, on forests: `Forest.setChildren`, up to the order of the trees
+(`G`: the forest of `s` in any order) -/
+theorem forest_adopted {s : Store} (hw : WF s) (v : Nat) (hv : v < s.n) (G : Forest)
+    (hG : (forest s).Perm G) : ∀ (cs : List Nat), cs.Nodup →
     (∀ c ∈ cs, c < s.n ∧ ¬ Reach s c v) →
-    (forest (adopted s v cs)).Perm (Forest.setChildren (forest s) v cs) := by
+    (forest (adopted s v cs)).Perm (Forest.setChildren G v cs) := by
   intro cs
   induction cs using snoc_induction with
   | h0 =>
     intro _ _
     rw [adopted_nil]
-    exact forest_detached hw v hv
+    exact (forest_detached hw v hv).trans (Forest.delChildren_perm hG (nodup_preL_forest hw) v)
   | h1 cs c ih =>
     intro hn hcs
     have hn' := List.nodup_append.1 hn
